@@ -294,6 +294,78 @@ type FloatV struct {
 	Known bool
 	F     float64
 	Expr  string // canonical symbolic expression (for formula comparison), "" if unknown
+	Mono  *Mono  // rational monomial normal form coef * prod(atom^exp), when the value is built by * and / only
+	Rounded string // "Round"/"Floor"/... applied on top of Mono (opaque wrapper), "" if none
+}
+
+// Mono: coefficient times a product of atoms with integer exponents (normal form of straight-line * and /).
+type Mono struct {
+	Coef float64
+	Pow  map[string]int
+}
+
+func monoOfAtom(name string) *Mono { return &Mono{Coef: 1, Pow: map[string]int{name: 1}} }
+func monoConst(c float64) *Mono     { return &Mono{Coef: c, Pow: map[string]int{}} }
+
+func monoMul(a, b *Mono, sign int) *Mono {
+	r := &Mono{Coef: a.Coef, Pow: map[string]int{}}
+	for k, v := range a.Pow {
+		r.Pow[k] = v
+	}
+	if sign > 0 {
+		r.Coef *= b.Coef
+	} else {
+		r.Coef /= b.Coef
+	}
+	for k, v := range b.Pow {
+		r.Pow[k] += sign * v
+		if r.Pow[k] == 0 {
+			delete(r.Pow, k)
+		}
+	}
+	return r
+}
+
+func (m *Mono) String() string {
+	if m == nil {
+		return "?"
+	}
+	var ks []string
+	for k := range m.Pow {
+		ks = append(ks, k)
+	}
+	sort.Strings(ks)
+	s := fmt.Sprintf("%g", m.Coef)
+	for _, k := range ks {
+		s += fmt.Sprintf(" * %s^%d", k, m.Pow[k])
+	}
+	return s
+}
+
+func monoEq(a, b *Mono) bool {
+	if a == nil || b == nil || len(a.Pow) != len(b.Pow) {
+		return false
+	}
+	r := a.Coef / b.Coef
+	if r < 1-1e-12 || r > 1+1e-12 {
+		return false
+	}
+	for k, v := range a.Pow {
+		if b.Pow[k] != v {
+			return false
+		}
+	}
+	return true
+}
+
+func (f *FloatV) mono() *Mono {
+	if f.Known {
+		return monoConst(f.F)
+	}
+	if f.Rounded != "" && f.Mono != nil {
+		return monoOfAtom(f.Rounded + "(" + f.Mono.String() + ")")
+	}
+	return f.Mono
 }
 
 type TopV struct{ T types.Type }
